@@ -360,27 +360,24 @@ func (update *Update) Prepend(eventlist *EventList) error {
 		return errors.New("events too new")
 	}
 
-	n := &Update{
-		SignedAccumulator: update.SignedAccumulator,
-		Events:            update.Events[min:],
-	}
-	if len(n.Events) != 0 {
-		n.product = n.Product(n.Events[0].Index)
-	} else {
-		// eventlist covers all of our events
-		n.product = big.NewInt(1)
-	}
+	rest := &Update{Events: update.Events[min:]}
+	n := &Update{SignedAccumulator: update.SignedAccumulator}
 	// (a new slice: appending to eventlist.Events could write into an array that another update,
 	// extended with the same list earlier, still uses)
-	n.Events = append(append(make([]*Event, 0, count+len(n.Events)), eventlist.Events...), n.Events...)
-	if eventlist.product != nil {
-		n.product.Mul(n.product, eventlist.product)
-		n.productFrom = n.Events[0].Index
-	} else {
-		n.product = nil
-	}
+	n.Events = append(append(make([]*Event, 0, count+len(rest.Events)), eventlist.Events...), rest.Events...)
 	if err := NewEventList(n.Events...).Verify(n.SignedAccumulator.Accumulator); err != nil {
 		return err
+	}
+	// (only now, with verified events, the product of the revoked values is computed)
+	if eventlist.product != nil {
+		if len(rest.Events) != 0 {
+			n.product = rest.Product(rest.Events[0].Index)
+		} else {
+			// eventlist covers all of our events
+			n.product = big.NewInt(1)
+		}
+		n.product.Mul(n.product, eventlist.product)
+		n.productFrom = n.Events[0].Index
 	}
 
 	// update our instance only after no error has occurred
